@@ -42,6 +42,10 @@ type Case struct {
 	// with a TCP reset instead of finishing its dialogue.
 	TLS   bool   `json:"tls,omitempty"`
 	Abort []bool `json:"abort,omitempty"`
+	// Knock is the number of goroutines that connect to the two listeners (and hang up at once) as
+	// fast as they can from just before the cancellation until the listeners are closed: some of
+	// these connections are accepted in the very moments around the shutdown request.
+	Knock int `json:"knock,omitempty"`
 }
 
 var prop = hx.Prop[Case]{
@@ -49,7 +53,8 @@ var prop = hx.Prop[Case]{
 	Rule: "real SMTP and POP3 servers on 127.0.0.1:0 wired as FullAssembly does (hub and retention scanner on the same host and context); " +
 		"0-6 sessions driven into generated protocol states (connected, greeted, after MAIL, after RCPT, mid-DATA; POP3 logged in with a " +
 		"deletion mark), at most one SMTP session held at the 'accepted' yield point before it registers itself; then a generated ordering " +
-		"of cancel, the client steps that finish each dialogue, Drain calls, new connection attempts; oracle: after cancel no new connection " +
+		"of cancel (in half of the cases with 2-8 goroutines connecting and hanging up at full speed from just before it until the listeners are " +
+		"closed), the client steps that finish each dialogue, Drain calls, new connection attempts; oracle: after cancel no new connection " +
 		"is greeted, every open session completes (in-flight message acknowledged with 250 and stored, POP3 deletions applied on QUIT), " +
 		"Drain has not returned while an accepted session is still running (checked by state) and returns within 20 s after the last one " +
 		"ended, Start/Join/hub return within 2 s of cancel, the process survives; non-trivial = a session is mid-transaction at cancel time " +
@@ -93,6 +98,7 @@ var prop = hx.Prop[Case]{
 		for range c.Sessions {
 			c.Abort = append(c.Abort, rapid.IntRange(0, 4).Draw(t, "abort") == 0)
 		}
+		c.Knock = rapid.SampledFrom([]int{0, 0, 2, 4, 8}).Draw(t, "knock")
 		return c
 	},
 	Run: run,
@@ -519,8 +525,43 @@ func run(c Case) *hx.Outcome {
 					midTxn = true
 				}
 			}
+			stopKnock := make(chan struct{})
+			var knockers sync.WaitGroup
+			for k := 0; k < c.Knock; k++ {
+				knockers.Add(1)
+				go func(addr string) {
+					defer knockers.Done()
+					for n := 0; n < 400; n++ {
+						select {
+						case <-stopKnock:
+							return
+						default:
+						}
+						conn, err := net.DialTimeout("tcp", addr, 200*time.Millisecond)
+						if err != nil {
+							time.Sleep(200 * time.Microsecond)
+							continue
+						}
+						if tc, ok := conn.(*net.TCPConn); ok {
+							_ = tc.SetLinger(0) // reset: no TIME_WAIT entries piling up
+						}
+						_ = conn.Close()
+					}
+				}([]string{smtpAddr, smtpAddr, pop3Addr}[k%3])
+			}
+			if c.Knock > 0 {
+				time.Sleep(time.Millisecond)
+				o.Class("connections arriving around the shutdown request")
+			}
 			w.Cancel()
 			cancelled = true
+			startsBack := within(o, "start-blocked", "smtp Start returning after cancel", 2*time.Second, smtpStarted) &&
+				within(o, "start-blocked", "pop3 Start returning after cancel", 2*time.Second, pop3Started)
+			close(stopKnock)
+			knockers.Wait()
+			if !startsBack {
+				return o
+			}
 			if !within(o, "start-blocked", "smtp Start returning after cancel", 2*time.Second, smtpStarted) ||
 				!within(o, "start-blocked", "pop3 Start returning after cancel", 2*time.Second, pop3Started) ||
 				!within(o, "join-blocked", "the retention scanner stopping after cancel", 2*time.Second, rsDone) {
